@@ -20,6 +20,8 @@ var registry = map[string]func(*rules.Ctx){
 	"C04": rules.C04,
 	"C05": rules.C05,
 	"C06": rules.C06,
+	"C12": rules.C12,
+	"C15": rules.C15,
 }
 
 func main() {
@@ -76,6 +78,10 @@ func main() {
 		if err != nil {
 			fmt.Println(err)
 			os.Exit(2)
+		}
+		if *dump == "external" {
+			rules.DumpExternal(p)
+			return
 		}
 		rules.Dump(p, *dump)
 		return
